@@ -105,13 +105,14 @@ GInit ==
             /\ hb = [b \in Buf |-> h]
             /\ mem = [b \in Buf |-> Pat(k, h + vlen + VPad(vlen) + 5)]
   /\ step = VOp("start", << >>, 0) @@ [base |-> hb[1], pre |-> << >>, post |-> << >>, len |-> 0, bytes |-> << >>, ret |-> 0,
-                                        mode |-> job.mode, dt |-> job.dt]
+                                        mode |-> job.mode, dt |-> job.dt, dataat |-> 0]
 
 DoVss(o) ==
   \E r \in { VssApply(mem[1], hb[1], o) } :
      /\ mem' = [mem EXCEPT ![1] = r.post]
      /\ step' = o @@ [base |-> hb[1], pre |-> mem[1], post |-> r.post, len |-> r.len, bytes |-> r.bytes, ret |-> r.ret,
-                      mode |-> AddrMode(mem[1], hb[1]), dt |-> DataType(mem[1], hb[1])]
+                      mode |-> AddrMode(mem[1], hb[1]), dt |-> DataType(mem[1], hb[1]),
+                      dataat |-> IF AddrMode(mem[1], hb[1]) \in {0, 1} THEN DataAt(mem[1], hb[1]) ELSE 0]   \* where the value starts (for in-place sources)
      /\ UNCHANGED <<hb, out, job>>
 
 GNext ==
